@@ -42,6 +42,24 @@ impl TraceWriter {
             // every finished scenario is on disk before the next one starts (a watchdog may end the process, see `Watchdog`)
             self.out.flush().expect("flush trace");
         }
+        // TLC's integers are 32 bits: a wild figure (an underflowed counter of the code under test) is data, not a reason for the
+        // validation to fail - it is clamped to +-2_000_000_001, which no legitimate observation reaches
+        fn clamp(v: &Value) -> Value {
+            match v {
+                Value::Number(n) => {
+                    if let Some(u) = n.as_u64() {
+                        if u > 2_000_000_000 { return serde_json::json!(2_000_000_001u64); }
+                    } else if let Some(i) = n.as_i64() {
+                        if i < -2_000_000_000 { return serde_json::json!(-2_000_000_001i64); }
+                    }
+                    v.clone()
+                }
+                Value::Array(a) => Value::Array(a.iter().map(clamp).collect()),
+                Value::Object(o) => Value::Object(o.iter().map(|(k, x)| (k.clone(), clamp(x))).collect()),
+                _ => v.clone(),
+            }
+        }
+        let v = &clamp(v);
         serde_json::to_writer(&mut self.out, v).expect("write trace");
         self.out.write_all(b"\n").expect("write trace");
         self.lines += 1;
